@@ -213,6 +213,16 @@ func init() {
 		for i := 0; i < nb; i++ {
 			n := genPrim(r, []string{"String", "Numeric", "Binary", "Hex"})
 			emitFieldBattery(r, n, genPrimValue(r, n), 3, emit)
+			// the same object used twice, the second time also for an empty value
+			v1 := genPrimValue(r, n)
+			p1 := packedOf(n.term, v1)
+			empty := map[string]*Sx{"String": L(A("S"), X(nil)), "Numeric": L(A("N"), I(0)), "Binary": L(A("B"), X(nil)), "Hex": L(A("H"), X(nil))}[n.kind]
+			for _, v2 := range []*Sx{genPrimValue(r, n), empty} {
+				if p2 := packedOf(n.term, v2); p1 != nil && p2 != nil {
+					emit(L(A("fld"), n.term, L(op("unpack", X(p1)), op("get"), op("unpack", X(p2)), op("get"), op("pack"))))
+					emit(L(A("fld"), n.term, L(op("set", v1), op("unpack", X(p2)), op("get"), op("pack"))))
+				}
+			}
 		}
 		// C. composites of all four modes nested to depth 3
 		nc := 1500
